@@ -51,3 +51,10 @@ Example C29_nonvacuous :
   split_disjoint_nodes ex29_edges ex29_smp ex29_muts [0; 2; 4; 5; 1; 3]%nat [0; 2; 4; 5; 1; 3]%nat
     = Some ([3; 5; 3; 5; 4; 4], [0; 0; 1; 1; 0; 1], [0; 1; 2; 3; 4; 3]%nat, [3%nat], [3; 3; 5; 0]).
 Proof. exact C29_example. Qed.
+
+(** regression example for the repaired defect S2 (fix 3af34f9: [_relabel_mutations_node] no longer
+    reads [remove_position[-1]] of an empty array): a valid table without edges *)
+Example C29_no_edges :
+  valid_tablesb 10 [] [] [] = true /\
+  split_disjoint_nodes [] [true; true] [(3, 0%nat)] [] [] = Some ([], [], [0; 1]%nat, [], [0]).
+Proof. exact C29_no_edges_example. Qed.
